@@ -130,7 +130,7 @@ def parse_assumptions(output):
 def check_axioms(axioms, allowed_groups):
     allowed = set()
     for g in allowed_groups:
-        allowed |= AXIOM_GROUPS[g]
+        allowed |= AXIOM_GROUPS.get(g, set())
     bad = []
     for a in axioms:
         if a in allowed: continue
